@@ -24,7 +24,7 @@ def _in_claim(addr, claim):
 # 1. re-announcement: a connected peer's claims change at run time
 def reannounce_cases(rng, count):
     out = []
-    for _ in range(count):
+    for idx in range(count):
         n = rng.choice([2, 3])
         s = nu.Scenario()
         for i in range(1, n + 1):
@@ -41,6 +41,8 @@ def reannounce_cases(rng, count):
             s.add("P.1.%s" % nu.ipv4_packet(nu.node_ip(1), d), "A", "O.2")
         s.add("S.1")
         new = rng.choice([[], [], [_claim(7)], [_claim(8)], [_claim(2)], [_claim(2), _claim(8)], [_claim(2, 16)], ["%s/32" % (_net(2)[:3] + bytes([5])).hex()]])
+        if idx < 2:
+            new = []          # always present: every claim withdrawn (an announcement with an EMPTY list)
         s.add("Q.2.%s" % (";".join(new) if new else "-"))
         s.tick(95)           # more than one announcement interval (at most 90 s)
         s.add("S.1")
@@ -136,6 +138,285 @@ def oracle_silent_learned(line, impl_out):
     return None
 
 
+# ---------------------------------------------------------------------------------------------------------------------------
+# 3. every look at a node: the next hops its table can produce are peers (the invariant NextHopProofs.v proves of the model)
+def rt_violation(dump):
+    peers = set(p[0] for p in dump["peers_l"])
+    for c in dump["claims_l"]:
+        if c.split(":", 1)[0] not in peers:
+            return "claim %s is attributed to %s, which is not a peer (peers: %s)" % (c, c.split(":", 1)[0], sorted(peers))
+    for c in dump["cache_l"]:
+        hop = c.split(">", 1)[1].split("@", 1)[0]
+        if hop not in peers:
+            return "cached / learned entry %s points at %s, which is not a peer (peers: %s)" % (c, hop, sorted(peers))
+    return None
+
+
+def rt_all_dumps(line, impl_out):
+    ops, outs = line.split()[1:], impl_out.split()
+    now = 1
+    for o, r in zip(ops, outs):
+        if o.startswith("T."):
+            now = int(o[2:])
+        elif o.startswith("S.") and r.startswith("peers="):
+            v = rt_violation(nu.parse_dump(r))
+            if v:
+                return "node %s at t=%d: %s" % (o[2:], now, v)
+    return None
+
+
+# ---------------------------------------------------------------------------------------------------------------------------
+# 4. a running node's public address changes (NAT rebinding: same node id, new source address); the peer re-connects from the new
+#    address while the other side still holds the entry for the old one
+REBIND_MARK = "X.9994"
+
+
+def rebind_cases(rng, count, learning=False):
+    out = []
+    for _ in range(count):
+        s = nu.Scenario()
+        pt2 = rng.choice([40, 60, 130])
+        three = rng.random() < 0.5
+        if learning:
+            mode = rng.choice(["tap-switch", "tap-normal"])
+            s.node(1, mode=mode, pt=300, st=3600)
+            s.node(2, mode=mode, pt=pt2, st=3600)
+            if three:
+                s.node(3, mode=mode, pt=300, st=3600)
+        else:
+            s.node(1, mode="tun-router", pt=300, claims=[_claim(1)])
+            s.node(2, mode="tun-router", pt=pt2, claims=[_claim(2)])
+            if three:
+                s.node(3, mode="tun-router", pt=300, claims=[_claim(3)])
+        s.add("R.2.1", "C.2.1", "A")
+        if three:
+            s.add("C.3.1", "A")
+        s.tick(rng.choice([3, 20, 70]))
+        if learning:
+            probe = "P.1.%s" % nu.eth_frame(nu.mac(42), nu.mac(1))
+            s.add("P.2.%s" % nu.eth_frame(b"\xff" * 6, nu.mac(42)), "A", "O.1", "O.2")       # a host behind node 2 talks
+        else:
+            probe = "P.1.%s" % nu.ipv4_packet(nu.node_ip(1), nu.node_ip(2, 7))
+        s.add(probe, "A", "O.2")
+        s.add(REBIND_MARK, "K.2.22")                                    # node 2 is now seen as address 22; address 2 is dead
+        # the bound of C05 counts from the LONGER peer timeout (node 1 keeps the entry for the old address that long): 300 + 120 (+ slack)
+        for k in range(300 + 120 + 5):
+            s.t += 1
+            s.add("T.%d" % s.t)
+            for i in s.nodes:
+                s.add("H.%d" % i)
+            s.add("S.1")                                                 # looked at BEFORE delivery
+            s.add("A")
+            if k % 25 == 24:
+                s.add(probe, "A", "O.2")
+        s.add("S.1", "S.2")
+        s.add(probe, "A", "O.2")
+        s.add("P.2.%s" % (nu.eth_frame(nu.mac(1), nu.mac(42)) if learning else nu.ipv4_packet(nu.node_ip(2), nu.node_ip(1))), "A", "O.1")
+        out.append(s.line())
+    return out
+
+
+def oracle_rebind(line, impl_out):
+    ops, outs = line.split()[1:], impl_out.split()
+    if len(ops) != len(outs):
+        return "driver returned %d results for %d ops" % (len(outs), len(ops))
+    if any(r.startswith("panic") for r in outs):
+        return "panic"
+    v = rt_all_dumps(line, impl_out)
+    if v:
+        return v
+    now, last = 1, None
+    for o, r in zip(ops, outs):
+        if o.startswith("T."):
+            now = int(o[2:])
+        elif o == "S.1":
+            last = nu.parse_dump(r)
+        elif o.startswith("P.1.") and last is not None:
+            peers = set(int(p[0]) for p in last["peers_l"])
+            for dst, _ in nu.emissions(r):
+                if dst not in peers:
+                    return "at t=%d node 1 sent a payload datagram to address %d, which is not one of its peers %s" % (now, dst, sorted(peers))
+    d1 = nu.parse_dump([r for o, r in zip(ops, outs) if o == "S.1"][-1])
+    d2 = nu.parse_dump([r for o, r in zip(ops, outs) if o == "S.2"][-1])
+    if not any(p[0] == "22" for p in d1["peers_l"]):
+        return ("node 2's public address changed; delivery was reliable for the peer timeout + retry horizon, it re-connected from the new "
+                "address, but node 1 does not hold it as a peer")
+    if not any(p[0] == "1" for p in d2["peers_l"]):
+        return "after its address change node 2 is not connected to node 1 at the end"
+    w2, w1 = outs[-4], outs[-1]
+    if w2 == "w-" or w1 == "w-":
+        return "both ends report the connection after the address change but payload does not pass in both directions (%s, %s)" % (w2[:20], w1[:20])
+    return None
+
+
+# ---------------------------------------------------------------------------------------------------------------------------
+# 5. a MORE SPECIFIC claim appears (a node joins) after a decision for an address inside it was cached: the cached decision
+#    must not be reused beyond the switch timeout
+NESTED_MARK = "X.9993"
+
+
+def nested_cases(rng, count):
+    out = []
+    for _ in range(count):
+        st = rng.choice([5, 10, 30])
+        mode = rng.choice(["tun-router", "tun-router", "tun-hub"])
+        s = nu.Scenario()
+        s.node(1, mode=mode, st=st, claims=["0a000100/24"])
+        s.node(2, mode=mode, st=st, claims=["0a000000/8"])
+        s.node(3, mode=mode, st=st, claims=["0a010000/16"])
+        s.add("C.2.1", "A")
+        s.tick(3)
+        pkt = nu.ipv4_packet(nu.node_ip(1), bytes([10, 1, 1, 1]))
+        s.add("P.1.%s" % pkt, "A", "O.2")                    # decision cached: 10.1.1.1 -> node 2 (the only claim so far)
+        s.add(NESTED_MARK, "C.3.1", "A")                     # node 3 joins with 10.1.0.0/16
+        for _ in range(st + 2):                              # a quiet stretch: only housekeeping
+            s.t += 1
+            s.add("T.%d" % s.t, "H.1", "H.2", "H.3", "A")
+        s.add("P.1.%s" % pkt, "A", "O.3")
+        s.add("S.1")
+        out.append(s.line())
+    return out
+
+
+def oracle_nested(line, impl_out):
+    ops, outs = line.split()[1:], impl_out.split()
+    if len(ops) != len(outs):
+        return "driver returned %d results for %d ops" % (len(outs), len(ops))
+    if any(r.startswith("panic") for r in outs):
+        return "panic"
+    k = ops.index(NESTED_MARK)
+    st = int([o for o in ops if o.startswith("N.")][0].split(".")[5])
+    for o, r in list(zip(ops, outs))[k:]:
+        if o.startswith("P.1."):
+            got = sorted(d for d, _ in nu.emissions(r))
+            if got != [3]:
+                return ("packet for 10.1.1.1 read at node 1 more than the switch timeout (%d s) after the decision '-> node 2' was cached, with node 3's "
+                        "more specific claim 10.1.0.0/16 live, went to %s: a cached decision is reused no longer than the switch timeout") % (st, got)
+    return rt_all_dumps(line, impl_out)
+
+
+# ---------------------------------------------------------------------------------------------------------------------------
+# 6. peer timeout and switch timeout far apart: claims of a connected peer live by the PEER timeout (re-announced in time),
+#    cached decisions by the switch timeout
+TIMEOUTS_MARK = "X.9992"
+
+
+def timeouts_cases(rng, count):
+    out = []
+    for _ in range(count):
+        pt, st = rng.choice([(1000, 60), (1800, 300), (1800, 20), (900, 300)])
+        s = nu.Scenario()
+        s.node(1, mode="tun-router", pt=pt, st=st, claims=[_claim(1)])
+        s.node(2, mode="tun-router", pt=pt, st=st, claims=[_claim(2)])
+        s.add(TIMEOUTS_MARK, "C.2.1", "A")
+        s.tick(3)
+        horizon = min(pt + 100, 1200)
+        probe_at = set([5, st - 1, st + 1, st + 10, 290, 310, 500, 830, 900, horizon - 1])
+        for k in range(1, horizon):
+            s.t += 1
+            s.add("T.%d" % s.t, "H.1", "H.2", "A")
+            if k in probe_at:
+                s.add("S.1", "P.1.%s" % nu.ipv4_packet(nu.node_ip(1), nu.node_ip(2, 9)), "A", "O.2")
+        out.append(s.line())
+    return out
+
+
+def oracle_timeouts(line, impl_out):
+    ops, outs = line.split()[1:], impl_out.split()
+    if len(ops) != len(outs):
+        return "driver returned %d results for %d ops" % (len(outs), len(ops))
+    if any(r.startswith("panic") for r in outs):
+        return "panic"
+    now = 1
+    for i, (o, r) in enumerate(zip(ops, outs)):
+        if o.startswith("T."):
+            now = int(o[2:])
+        elif o == "S.1":
+            d = nu.parse_dump(r)
+            if not any(p[0] == "2" for p in d["peers_l"]):
+                return "at t=%d node 1 has dropped its healthy, regularly announcing peer 2" % now
+            have = [c.split("@")[0] for c in d["claims_l"] if c.startswith("2:")]
+            if have != ["2:" + _claim(2)]:
+                return ("at t=%d node 1 holds the claims %s for its connected peer 2, whose announcements (at most 90 s apart) list [%s]: claims "
+                        "live by the peer timeout, not by the switch timeout") % (now, have, _claim(2))
+        elif o.startswith("P.1."):
+            if sorted(d for d, _ in nu.emissions(r)) != [2] or outs[i + 2] == "w-":
+                return "at t=%d a packet for the network of connected peer 2 was not delivered to it (%s / %s)" % (now, r[:30], outs[i + 2][:20])
+    return rt_all_dumps(line, impl_out)
+
+
+# ---------------------------------------------------------------------------------------------------------------------------
+# 7. router mode on a tap device with MAC-range claims: unknown destinations are dropped and counted, never flooded
+TAPROUTER_MARK = "X.9991"
+
+
+def taprouter_cases(rng, count):
+    out = []
+    for _ in range(count):
+        s = nu.Scenario()
+        # node i claims the MAC range 02:00:00:00:0i:00/40
+        def cl(i):
+            return "%s/40" % bytes([2, 0, 0, 0, i, 0]).hex()
+        n = rng.choice([2, 3])
+        for i in range(1, n + 1):
+            s.node(i, mode="tap-router", claims=[cl(i)])
+        s.add(TAPROUTER_MARK)
+        for i in range(2, n + 1):
+            s.add("C.%d.1" % i, "A")
+        s.tick(3)
+        s.add("S.1")
+        for _ in range(rng.choice([4, 8])):
+            src = rng.randrange(1, n + 1)
+            r = rng.random()
+            if r < 0.5:
+                j = rng.randrange(1, n + 1)
+                dst = bytes([2, 0, 0, 0, j, rng.randrange(256)])
+            elif r < 0.8:
+                dst = bytes([2, 0, 0, 0, 9, rng.randrange(256)])          # nobody's range
+            else:
+                dst = b"\xff" * 6
+            s.add("P.%d.%s" % (src, nu.eth_frame(dst, bytes([2, 0, 0, 0, src, 7]))), "A")
+            for k in range(1, n + 1):
+                s.add("O.%d" % k)
+            s.add("S.%d" % src)
+        out.append(s.line())
+    return out
+
+
+def oracle_taprouter(line, impl_out):
+    ops, outs = line.split()[1:], impl_out.split()
+    if len(ops) != len(outs):
+        return "driver returned %d results for %d ops" % (len(outs), len(ops))
+    if any(r.startswith("panic") for r in outs):
+        return "panic"
+    n = sum(1 for o in ops if o.startswith("N."))
+    drops = {}
+    i = 0
+    while i < len(ops):
+        o, r = ops[i], outs[i]
+        if o.startswith("P."):
+            src = int(o.split(".")[1])
+            dst = bytes.fromhex(o.split(".")[2])[0:6]
+            j = dst[4] if dst[:4] == bytes([2, 0, 0, 0]) and 1 <= dst[4] <= n and dst[4] != src else None
+            want = [j] if j is not None else []
+            got = sorted(d for d, _ in nu.emissions(r))
+            if got != want:
+                return ("router mode on a tap device: frame for %s read at node %d went to %s; the MAC-range claims select %s "
+                        "(no live claim: dropped and counted, never flooded)") % (dst.hex(), src, got, want)
+            d = nu.parse_dump(outs[i + 2 + n])
+            before = drops.get(src)
+            now = int(d["drop"])
+            if before is not None and not want and now != before + 1:
+                return "frame without a matching claim read at node %d: dropped-payload counter went %d -> %d" % (src, before, now)
+            drops[src] = now
+            i += 3 + n
+            continue
+        if o.startswith("S.") and r.startswith("peers="):
+            drops[int(o[2:])] = int(nu.parse_dump(r)["drop"])
+        i += 1
+    return rt_all_dumps(line, impl_out)
+
+
 FAMILIES = [("reannounce", reannounce_cases, oracle_reannounce), ("silent", silent_learned_cases, oracle_silent_learned)]
 
 
@@ -144,8 +425,19 @@ def is_node(line):
 
 
 def family_of(line):
+    for mark, name in ((REBIND_MARK, "rebind"), (NESTED_MARK, "nested"), (TIMEOUTS_MARK, "timeouts"), (TAPROUTER_MARK, "taprouter")):
+        if " %s " % mark in line:
+            return name
     return "silent" if " M.3.1 " in line else "reannounce"
 
 
+ORACLES = {"rebind": oracle_rebind, "nested": oracle_nested, "timeouts": oracle_timeouts, "taprouter": oracle_taprouter,
+           "silent": oracle_silent_learned, "reannounce": oracle_reannounce}
+
+
 def oracle(line, impl_out):
-    return (oracle_silent_learned if family_of(line) == "silent" else oracle_reannounce)(line, impl_out)
+    v = ORACLES[family_of(line)](line, impl_out)
+    if v:
+        return v
+    # in every family, at every look: whatever the table can select is a peer
+    return rt_all_dumps(line, impl_out)
